@@ -13,6 +13,15 @@ import (
    I will be making some changes to the grammar but I do want it to be as close to the specification as possible
 */
 
+// regexpCharAt reads one character of the pattern; past the end it yields 0, which is none of the
+// characters the grammar looks for, so a truncated pattern runs into the ordinary error returns.
+func regexpCharAt(regexp string, index int) byte {
+	if index < 0 || index >= len(regexp) {
+		return 0
+	}
+	return regexp[index]
+}
+
 func parse_regexp(tokens []*Token, token_index int) (AstExpression, int, error) {
 	regexp_token := tokens[token_index]
 	regexp := regexp_token.Lexeme
@@ -32,7 +41,7 @@ func parse_regexp(tokens []*Token, token_index int) (AstExpression, int, error) 
 func parse_regexp_disjunction(regexp_token *Token, regexp string, index int) ([]AstExpression, int, error) {
 	current_index := index
 	results := []AstExpression{}
-	for current_index < len(regexp) && regexp[current_index] != ')' {
+	for current_index < len(regexp) && regexpCharAt(regexp, current_index) != ')' {
 		exp, next_index, err := parse_regexp_pattern(regexp_token, regexp, current_index)
 		if err != nil {
 			return nil, next_index, err
@@ -50,7 +59,7 @@ func parse_regexp_pattern(regexp_token *Token, regexp string, index int) (AstExp
 	}
 
 	if next_index < len(regexp) {
-		if regexp[next_index] == '|' {
+		if regexpCharAt(regexp, next_index) == '|' {
 			end, idx, err := parse_regexp_pattern(regexp_token, regexp, next_index+1)
 			return &AstBranch{&AstSubExpr{[]AstExpression{start}}, end}, idx, err
 		} else {
@@ -62,13 +71,13 @@ func parse_regexp_pattern(regexp_token *Token, regexp string, index int) (AstExp
 }
 
 func parse_regexp_number(regexp_token *Token, regexp string, index int) (int, int, error) {
-	c := regexp[index]
+	c := regexpCharAt(regexp, index)
 	result := ""
 	idx := index
 	for c >= '0' && c <= '9' {
 		result += string(c)
 		idx += 1
-		c = regexp[idx]
+		c = regexpCharAt(regexp, idx)
 	}
 	if result == "" {
 		return -1, index, NewParseError(regexp_token, "Unexpected Token. Expected number")
@@ -81,7 +90,10 @@ func parse_regexp_number(regexp_token *Token, regexp string, index int) (int, in
 }
 
 func parse_regexp_literal(regexp_token *Token, regexp string, index int) (AstExpression, int, error) {
-	c := regexp[index]
+	if index >= len(regexp) {
+		return nil, index, NewParseError(regexp_token, "Unexpected end of regexp")
+	}
+	c := regexpCharAt(regexp, index)
 	var start AstLiteral
 	next_index := index
 	if c == '^' {
@@ -168,7 +180,7 @@ func parse_regexp_character_class(regexp_token *Token, regexp string, index int)
 
 	next_index := index
 	notin := false
-	if regexp[next_index] == '^' {
+	if regexpCharAt(regexp, next_index) == '^' {
 		notin = true
 		next_index += 1
 	}
@@ -178,7 +190,7 @@ func parse_regexp_character_class(regexp_token *Token, regexp string, index int)
 	}
 
 	results := []AstListable{}
-	for next_index < len(regexp) && regexp[next_index] != ']' {
+	for next_index < len(regexp) && regexpCharAt(regexp, next_index) != ']' {
 		listable, idx, err := parse_regexp_class_ranges(regexp_token, regexp, next_index)
 		if err != nil {
 			return nil, idx, err
@@ -201,7 +213,7 @@ func parse_regexp_character_class(regexp_token *Token, regexp string, index int)
 }
 
 func parse_regexp_class_ranges(regexp_token *Token, regexp string, index int) (AstListable, int, error) {
-	if regexp[index] == '\\' {
+	if regexpCharAt(regexp, index) == '\\' {
 		return parse_regexp_class_atom_escape(regexp_token, regexp, index)
 	} else {
 		start, next_index, err := parse_regexp_class_atom_string(regexp_token, regexp, index)
@@ -213,7 +225,7 @@ func parse_regexp_class_ranges(regexp_token *Token, regexp string, index int) (A
 			return start, next_index, err
 		}
 
-		if regexp[next_index] == '-' {
+		if regexpCharAt(regexp, next_index) == '-' {
 			to, end_index, err := parse_regexp_class_atom_string(regexp_token, regexp, next_index+1)
 			if err != nil {
 				return nil, end_index, err
@@ -234,21 +246,21 @@ func parse_regexp_class_atom_escape(regexp_token *Token, regexp string, index in
 	if index+1 >= len(regexp) {
 		return nil, index + 1, NewParseError(regexp_token, "Unexpected end of regexp")
 	}
-	panic("PARSE ESCAPE CHARACTER")
+	return nil, index + 1, NewParseError(regexp_token, "Escapes inside a character class are not supported")
 }
 
 func parse_regexp_class_atom_string(regexp_token *Token, regexp string, index int) (*AstString, int, error) {
-	if regexp[index] == ']' {
+	if regexpCharAt(regexp, index) == ']' {
 		return nil, index, nil
 	}
-	return &AstString{false, string(regexp[index]), false}, index + 1, nil
+	return &AstString{false, string(regexpCharAt(regexp, index)), false}, index + 1, nil
 }
 
 func parse_regexp_quantifier(regexp_token *Token, regexp string, index int) (*AstLoop, int, error) {
 	if index >= len(regexp) {
 		return nil, index, nil
 	}
-	op := regexp[index]
+	op := regexpCharAt(regexp, index)
 	var end_idx int
 	var exp *AstLoop
 	if op == '*' {
@@ -265,10 +277,10 @@ func parse_regexp_quantifier(regexp_token *Token, regexp string, index int) (*As
 		if err != nil {
 			return nil, idx, err
 		}
-		comma_or_brace := regexp[idx]
+		comma_or_brace := regexpCharAt(regexp, idx)
 
 		if comma_or_brace == ',' {
-			if regexp[idx+1] == '}' {
+			if regexpCharAt(regexp, idx+1) == '}' {
 				exp = &AstLoop{from, -1, false, nil, ""}
 				end_idx = idx + 2
 			} else {
@@ -276,7 +288,7 @@ func parse_regexp_quantifier(regexp_token *Token, regexp string, index int) (*As
 				if err != nil {
 					return nil, idx, err
 				}
-				brace := regexp[idx2]
+				brace := regexpCharAt(regexp, idx2)
 				if brace != '}' {
 					return nil, idx2, NewParseError(regexp_token, "Unexpected character. Expected '}'")
 				}
@@ -287,6 +299,8 @@ func parse_regexp_quantifier(regexp_token *Token, regexp string, index int) (*As
 		} else if comma_or_brace == '}' {
 			exp = &AstLoop{from, from, false, nil, ""}
 			end_idx = idx + 1
+		} else {
+			return nil, idx, NewParseError(regexp_token, "Unexpected character. Expected ',' or '}'")
 		}
 	} else {
 		exp = nil
@@ -294,7 +308,7 @@ func parse_regexp_quantifier(regexp_token *Token, regexp string, index int) (*As
 	}
 
 	if exp != nil {
-		exp.Fewest = end_idx < len(regexp) && regexp[end_idx] == '?'
+		exp.Fewest = end_idx < len(regexp) && regexpCharAt(regexp, end_idx) == '?'
 		if exp.Fewest {
 			end_idx += 1
 		}
@@ -304,12 +318,15 @@ func parse_regexp_quantifier(regexp_token *Token, regexp string, index int) (*As
 }
 
 func parse_regexp_escape_characters(regexp_token *Token, regexp string, index int) (AstLiteral, int, error) {
-	c := regexp[index]
+	if index >= len(regexp) {
+		return nil, index, NewParseError(regexp_token, "Unexpected end of regexp after '\\'")
+	}
+	c := regexpCharAt(regexp, index)
 	if c >= '1' && c <= '9' {
 		if index+1 >= len(regexp) {
 			return &AstVariable{fmt.Sprintf("_%c", c)}, index + 1, nil
 		}
-		d := regexp[index+1]
+		d := regexpCharAt(regexp, index+1)
 		if d >= '0' && d <= '9' {
 			return &AstVariable{fmt.Sprintf("_%c%c", c, d)}, index + 2, nil
 		}
@@ -331,20 +348,20 @@ func parse_regexp_escape_characters(regexp_token *Token, regexp string, index in
 	} else if c == 'B' {
 		return &AstSubExpr{[]AstExpression{&AstList{true, []AstListable{&AstCharacterClass{false, ClassWordStart}, &AstCharacterClass{false, ClassWordEnd}}}}}, index + 1, nil
 	} else if c == 'k' {
-		d := regexp[index+1]
+		d := regexpCharAt(regexp, index+1)
 		if d != '<' {
 			return nil, index + 1, NewParseError(regexp_token, "Expected a < character for named group reference")
 		}
 		// named capture group
 		current_index := index + 2
-		current := regexp[current_index]
+		current := regexpCharAt(regexp, current_index)
 		identifier := ""
 		for unicode.IsDigit(rune(current)) || unicode.IsLetter(rune(current)) {
 			identifier += string(current)
 			current_index += 1
-			current = regexp[current_index]
+			current = regexpCharAt(regexp, current_index)
 		}
-		if regexp[current_index] != '>' {
+		if regexpCharAt(regexp, current_index) != '>' {
 			return nil, current_index, NewParseError(regexp_token, "Unexpected charactrer in named capture group identifier.")
 		}
 		return &AstVariable{identifier}, current_index + 1, nil
@@ -355,48 +372,48 @@ func parse_regexp_escape_characters(regexp_token *Token, regexp string, index in
 
 func parse_regexp_groups(regexp_token *Token, regexp string, index int) (AstLiteral, int, error) {
 	// already consumed the parenthesis
-	c := regexp[index]
+	c := regexpCharAt(regexp, index)
 	if c == '?' {
-		marker := regexp[index+1]
+		marker := regexpCharAt(regexp, index+1)
 		if marker == ':' {
 			// non capture group
 			subexpr, next_index, err := parse_regexp_disjunction(regexp_token, regexp, index+2)
 			if err != nil {
 				return nil, next_index, err
 			}
-			if regexp[next_index] != ')' {
+			if regexpCharAt(regexp, next_index) != ')' {
 				return nil, next_index, NewParseError(regexp_token, "Expected end parenthesis")
 			}
 			return &AstSubExpr{subexpr}, next_index + 1, nil
 		} else if marker == '=' {
-			panic("Positive lookahead unimplemented")
+			return nil, index, NewParseError(regexp_token, "Positive lookahead unimplemented")
 		} else if marker == '!' {
-			panic("Negative lookahead unimplemented")
+			return nil, index, NewParseError(regexp_token, "Negative lookahead unimplemented")
 		} else if marker == '<' {
 			// lookbehind or named capture group
-			a := regexp[index+2]
+			a := regexpCharAt(regexp, index+2)
 			if a == '=' {
-				panic("Positive lookbehind unimplemented")
+				return nil, index, NewParseError(regexp_token, "Positive lookbehind unimplemented")
 			} else if a == '!' {
-				panic("Negative lookahead unimplemented")
+				return nil, index, NewParseError(regexp_token, "Negative lookahead unimplemented")
 			} else {
 				// named capture group
 				current_index := index + 2
-				current := regexp[current_index]
+				current := regexpCharAt(regexp, current_index)
 				identifier := ""
 				for unicode.IsDigit(rune(current)) || unicode.IsLetter(rune(current)) {
 					identifier += string(current)
 					current_index += 1
-					current = regexp[current_index]
+					current = regexpCharAt(regexp, current_index)
 				}
-				if regexp[current_index] != '>' {
+				if regexpCharAt(regexp, current_index) != '>' {
 					return nil, current_index, NewParseError(regexp_token, "Unexpected character in named capture group identifier.")
 				}
 				body, next_index, err := parse_regexp_disjunction(regexp_token, regexp, current_index+1)
 				if err != nil {
 					return nil, next_index, err
 				}
-				if regexp[next_index] != ')' {
+				if regexpCharAt(regexp, next_index) != ')' {
 					return nil, next_index, NewParseError(regexp_token, "Expected end parenthesis")
 				}
 				return &AstSubExpr{[]AstExpression{&AstDec{identifier, &AstSubExpr{body}}}}, next_index + 1, nil
@@ -409,7 +426,7 @@ func parse_regexp_groups(regexp_token *Token, regexp string, index int) (AstLite
 	if err != nil {
 		return nil, next_index, err
 	}
-	if regexp[next_index] != ')' {
+	if regexpCharAt(regexp, next_index) != ')' {
 		return nil, next_index, NewParseError(regexp_token, "Expected end parenthesis")
 	}
 	capture_group_number += 1
